@@ -3,9 +3,11 @@
   Property theorems only; helper lemmas live in MpirProofs/Lemmas/Swar.lean.  `mapB f 8 x` is Σ_{i<8} f(byte_i x)·256^i
   (the word whose byte i is f of byte i of x); `n4 b` holds in its two nibbles the bit counts of the two nibbles of b.
 
-  PROVED here: the per-limb reduction (popcount.c:53-55, shared by the block and the tail loop) for EVERY 64-bit limb:
-  field-wise action, no overflow between fields, fields add up to the limb's bit count.
-  NOT yet proved (run only, see TRUSTED of tools/props/c10_swar.py): block_eq, tail_eq, popcount_swar_eq, hamdist_swar_eq.
+  PROVED here, for EVERY 64-bit limb: the per-limb reduction (popcount.c:53-55: field-wise action, no overflow between
+  fields, fields add up to the limb's bit count), the whole 4-limb block (:53-80, block_eq, block_le_256) and the tail
+  loop's per-limb step (:96-99, tailLimb_fields).
+  NOT yet proved (run only, see TRUSTED of tools/props/c10_swar.py): the tail accumulation/folds as a whole, the outer
+  loop, hence popcount_swar_eq / hamdist_swar_eq.
 -/
 import MpirProofs.Lemmas.Swar
 namespace Mpir.Swar
@@ -38,6 +40,29 @@ example : red2 0xff03 = 0xaa02 := by decide
     wrap-around. -/
 theorem red4_fields (p : Nat) : red4 p = mapB h2 8 p := red4_bytes p
 example : red4 0xaa02 = 0x4402 := by decide
+
+/-- popcount.c:53-80, the body of the 4-limb unrolled loop: for ALL limbs u0..u3 < 2^64 the value added to `result`
+    is the exact number of one bits of the four limbs.  (Proof: p01/p23 have byte fields popc(byte of u0)+popc(byte of u1)
+    ≤ 16 — comment "8 0-16"; their sum has fields ≤ 32 — "8 0-32"; the folds :76, :77 add fields without a carry crossing
+    a byte — "8 0-64", "8 0-128"; :79 adds the two masked half sums.) -/
+theorem block_eq (u0 u1 u2 u3 : Nat) (h0 : u0 < B) (h1 : u1 < B) (h2 : u2 < B) (h3 : u3 < B) :
+    block u0 u1 u2 u3 = Bits.popc u0 + Bits.popc u1 + Bits.popc u2 + Bits.popc u3 := block_popc u0 u1 u2 u3 h0 h1 h2 h3
+example : block 0xff (B - 1) 0 0x8000000000000001 = 74 := by decide
+
+/-- range comment "8 0-256" of popcount.c:79: a block contributes at most 256 (and 256 is attained, see the examples
+    below: it does not fit a byte field, which is why :79 masks before adding). -/
+theorem block_le_256 (u0 u1 u2 u3 : Nat) (h0 : u0 < B) (h1 : u1 < B) (h2 : u2 < B) (h3 : u3 < B) :
+    block u0 u1 u2 u3 ≤ 256 := by
+  rw [block_eq u0 u1 u2 u3 h0 h1 h2 h3]
+  have := popc_le_64 u0; have := popc_le_64 u1; have := popc_le_64 u2; have := popc_le_64 u3
+  omega
+example : block (B - 1) (B - 1) (B - 1) (B - 1) = 256 := by decide
+
+/-- popcount.c:96-99, the per-limb step of the tail loop: for every limb u < 2^64 the value added to x has eight byte
+    fields and field i is the bit count of byte i of u (comment "8 0-8"); `(p0 >> 4) + p0` neither wraps nor carries
+    into a neighbouring byte before the mask. -/
+theorem tailLimb_fields (u : Nat) (hu : u < B) : tailLimb u = mapB pc8 8 u := tailLimb_bytes u hu
+example : tailLimb 0xffff00000f0100f3 = 0x0808000004010006 := by decide
 
 /-! popcount.c:79 masks BEFORE adding: a full block contributes 256, which does not fit the byte field.  The variant
     `x = (x >> 32) + x; … x & 0xff` (what the tail at :112-114 does, where at most 3 limbs = 192 bits arrive) is WRONG
